@@ -180,3 +180,13 @@ async fn f_c09_c_frame_handler_failure_closes_session() {
     assert!(r.is_err(), "the handler was expected to fail");
     assert!(s.is_closed(), "recv_loop ended with an error but left the session open (no receive loop, nobody is told)");
 }
+
+/// F-C07-a  dns_cache.vx_block_resolve.answer_carries_the_requested_port
+/// history: the same host requested with two different ports within the cache lifetime
+#[tokio::test]
+async fn f_c07_a_cached_name_keeps_the_requested_port() {
+    let a = anytls_rs::util::resolve_host_with_cache("localhost", 80).await.unwrap();
+    let b = anytls_rs::util::resolve_host_with_cache("localhost", 443).await.unwrap();
+    assert_eq!(a.port(), 80);
+    assert_eq!(b.port(), 443, "localhost:443 was answered with {} (the port of the request that filled the cache)", b);
+}
